@@ -1,6 +1,7 @@
 //! minigo: an independent judge (lexer, parser, type checker, interpreter) for the closed
 //! subset of Go that the goml printer can emit.  Anything outside the modelled subset
 //! yields `Unsupported` (fail closed).
+#![allow(dead_code)]
 
 mod ast;
 mod check;
@@ -99,26 +100,123 @@ fn panic_text(p: Box<dyn std::any::Any + Send>) -> String {
     }
 }
 
-/// lex + parse + type-check.
-pub fn compile(text: &str) -> Result<Program, Vec<GoError>> {
-    // Run on a dedicated thread with a large stack so that deeply nested (but capped)
-    // input can never overflow the caller's stack.
-    let res = std::thread::scope(|s| {
-        let h = std::thread::Builder::new()
-            .stack_size(256 << 20)
-            .spawn_scoped(s, || catch_unwind(AssertUnwindSafe(|| compile_inner(text))));
+/// Like [`compile`] but runs on the caller's stack (the caller guarantees enough stack).
+#[doc(hidden)]
+pub fn compile_on_this_thread(text: &str) -> Result<Program, Vec<GoError>> {
+    compile_inner(text)
+}
+
+const COMPILE_STACK: usize = 256 << 20;
+
+type CompileResult = Result<Program, Vec<GoError>>;
+
+fn compile_guarded(text: &str) -> CompileResult {
+    match catch_unwind(AssertUnwindSafe(|| compile_inner(text))) {
+        Ok(r) => r,
+        Err(p) => Err(vec![internal_err(&panic_text(p))]),
+    }
+}
+
+/// one-shot helper thread with a large stack (fallback path)
+fn compile_on_fresh_thread(text: &str) -> CompileResult {
+    std::thread::scope(|s| {
+        let h = std::thread::Builder::new().stack_size(COMPILE_STACK).spawn_scoped(s, || compile_guarded(text));
         match h {
             Ok(h) => match h.join() {
-                Ok(Ok(r)) => r,
-                Ok(Err(p)) => Err(vec![internal_err(&panic_text(p))]),
-                Err(p) => Err(vec![internal_err(&panic_text(p))]),
-            },
-            Err(_) => match catch_unwind(AssertUnwindSafe(|| compile_inner(text))) {
                 Ok(r) => r,
                 Err(p) => Err(vec![internal_err(&panic_text(p))]),
             },
+            // could not create a thread at all: refuse to judge rather than risk the caller's stack
+            Err(_) => Err(vec![internal_err("cannot spawn compile thread")]),
         }
-    });
+    })
+}
+
+type Job = (String, std::sync::mpsc::Sender<CompileResult>);
+
+/// A per-calling-thread helper with a large stack.  Deeply nested (but capped) input can
+/// therefore never overflow the caller's stack, and the helper's allocator state stays warm.
+struct Worker {
+    tx: Option<std::sync::mpsc::Sender<Job>>,
+    handle: Option<std::thread::JoinHandle<()>>,
+    /// process that created the helper: after a fork() the helper thread does not exist in
+    /// the child, so the handle must not be used there
+    pid: u32,
+}
+
+impl Worker {
+    fn spawn() -> Option<Worker> {
+        let (tx, rx) = std::sync::mpsc::channel::<Job>();
+        let handle = std::thread::Builder::new()
+            .name("minigo-compile".into())
+            .stack_size(COMPILE_STACK)
+            .spawn(move || {
+                while let Ok((text, reply)) = rx.recv() {
+                    let r = compile_guarded(&text);
+                    let _ = reply.send(r);
+                }
+            })
+            .ok()?;
+        Some(Worker { tx: Some(tx), handle: Some(handle), pid: std::process::id() })
+    }
+
+    fn compile(&self, text: &str) -> Option<CompileResult> {
+        let (rtx, rrx) = std::sync::mpsc::channel();
+        self.tx.as_ref()?.send((text.to_string(), rtx)).ok()?;
+        rrx.recv().ok()
+    }
+}
+
+impl Drop for Worker {
+    fn drop(&mut self) {
+        drop(self.tx.take());
+        if let Some(h) = self.handle.take() {
+            if self.pid == std::process::id() {
+                let _ = h.join();
+            } else {
+                std::mem::forget(h);
+            }
+        }
+    }
+}
+
+thread_local! {
+    static WORKER: std::cell::RefCell<Option<Worker>> = const { std::cell::RefCell::new(None) };
+}
+
+fn _assert_send_sync() {
+    fn check<T: Send + Sync>() {}
+    check::<Program>();
+    check::<GoError>();
+}
+
+/// lex + parse + type-check.
+pub fn compile(text: &str) -> Result<Program, Vec<GoError>> {
+    let via_worker = WORKER
+        .try_with(|w| {
+            let mut w = w.try_borrow_mut().ok()?;
+            if w.as_ref().map(|x| x.pid != std::process::id()).unwrap_or(false) {
+                // forked child: the helper thread was not duplicated; never join it
+                if let Some(stale) = w.take() {
+                    std::mem::forget(stale);
+                }
+            }
+            if w.is_none() {
+                *w = Worker::spawn();
+            }
+            let r = w.as_ref()?.compile(text);
+            if r.is_none() {
+                // the helper died: forget it, a new one is created next time
+                *w = None;
+            }
+            r
+        })
+        .ok()
+        .flatten();
+    let res = match via_worker {
+        Some(r) => r,
+        None => compile_on_fresh_thread(text),
+    };
     match res {
         Ok(p) => Ok(p),
         Err(mut errs) => {
